@@ -33,7 +33,7 @@ use std::task::{Context, Poll};
 
 pub const META: Meta = Meta {
     level: "model_checking",
-    rule: "BFS over all histories of {add_address, remove_address, NewExternalAddrOfPeer, ConnectionEstablished(dialer|listener, endpoint addr, failed set), DialFailure(peer|none; Transport(set) | WrongPeerId(obtained, addr) | Aborted)} over 3 peers x 3 addresses on the real MemoryStore (record_capacity 2, peer_capacity 2, remove_addr_on_dial_error on); states deduplicated on (store contents in iteration order, permanent set). Non-trivial = states in which at least one explicitly added address is stored.",
+    rule: "BFS over all histories of {add_address, remove_address, NewExternalAddrOfPeer, ConnectionEstablished(dialer|listener, endpoint addr, failed set), DialFailure(peer|none; Transport(set) | WrongPeerId(obtained, addr) | Aborted)} over 3 peers x 3 addresses on the real MemoryStore (record_capacity 2, peer_capacity 2, remove_addr_on_dial_error on); states deduplicated on (store contents in iteration order, reference permanent set, the store's private permanent flags via hook). Non-trivial = states in which at least one explicitly added address is stored.",
     explanation: "Every step's drained events are replayed against the previous contents and compared with the store's new contents; silent losses are accepted only as capacity evictions; explicit addresses must survive the automatic paths; size bounds checked in every state. Two passes: strict, and one tolerating a store that is one peer over capacity (so that this defect, if present, cannot hide others); un-deduplicated DFS companion to a smaller depth.",
     assumptions: &["3 peers / 3 addresses / capacities 2 and 2 (small-scope hypothesis)", "custom data unused (T = ())", "whether a capacity eviction emits PeerAddressRemoved is left open by the statement"],
 };
@@ -333,7 +333,11 @@ impl System for Sys {
     }
 
     fn canon(&self) -> Vec<u8> {
-        format!("{:?}|{:?}", self.prev, self.perm).into_bytes()
+        // store contents in iteration order + reference permanent set + the store's *private*
+        // permanent flags (hook): without them a state in which a flag was silently changed
+        // would be merged with its unchanged twin and never be extended
+        let flags: Vec<(u8, Vec<(u8, bool)>)> = self.store.record_iter().map(|(pid, r)| (pidx(pid), r.verif_flags().iter().map(|(a, f)| (aidx(a), *f)).collect())).collect();
+        format!("{:?}|{:?}|{:?}", self.prev, self.perm, flags).into_bytes()
     }
     fn nontrivial(&self) -> bool {
         !self.perm.is_empty()
@@ -369,7 +373,7 @@ pub fn run(ctx: &Ctx) -> Outcome {
     if guard.auto_removals == 0 || guard.perm_survived == 0 {
         out.machinery("vacuity: witness history never exercised an automatic removal next to a surviving explicit address");
     }
-    let ddepth = ctx.tier.pick(2, 3);
+    let ddepth = ctx.tier.pick(3, 3);
     let cfg = json!({"caps": "record 2 / peer 2", "tolerant": false});
     let (n, capped, v2) = bfs::dfs_all(|| Sys::new(false), ddepth, 3_000_000);
     out.count("dfs_companion_sequences", n);
